@@ -75,7 +75,8 @@ def run(ctx):
     cov = ctx.coverage
     cov["refdecoder_selftest_cases"] = wc.selftest(ctx, binary)
     k = 3 if ctx.quick else 40
-    vecs, r = wc.tlc_part(ctx, "send", {"NICs": NICS, "Parts": '{"send"}'}, timeout=1200)
+    idc = '{"rand", "carryLE", "carryBE", "carryHdr"}' if ctx.quick else '{"rand", "carryLE", "carryBE", "carryHdr", "sweep"}'
+    vecs, r = wc.tlc_part(ctx, "send", {"NICs": NICS, "IdClasses": idc, "Parts": '{"send"}'}, timeout=1200)
     cov["tlc"] = {"send": dict(r.summary(), exported=len(vecs))}
     results, summary = wc.drive(ctx, binary, "send", vecs, k, "send", timeout=1500)
     if summary.get("instances") != len(vecs) * k:
@@ -87,7 +88,8 @@ def run(ctx):
     distinct = {wc.abstract_digest(v) for v in vecs if v.get("clean") and v["exp"]["n"] == 1}
     nframes, _ = history_frames(ctx, cov)
     cov.update({
-        "evaluations": summary["instances"] - nskipped + nframes,
+        "evaluations": summary["instances"] - nskipped + nframes + summary.get("sweep_calls", 0),
+        "sweep_calls": summary.get("sweep_calls", 0),
         "distinct_nontrivial": len(distinct),
         "states": r.distinct, "transitions": r.generated,
         "rule": "one case = one (send function, parameter classes, NIC configuration) vector enumerated by TLC from WireMC part C, "
